@@ -217,6 +217,10 @@ def _materialise(payload):
             op = inst.operation
             if isinstance(op, BaseQPDGate):
                 orig = op.basis_id
+                if orig is None and op.num_qubits == 2 and (payload["pick"] >> 3) % 2:
+                    # the definition of a two-qubit placeholder is read while no map is selected yet (its two halves exist all the same)
+                    _ = op.definition
+                    continue
                 op.basis_id = (0 if orig != 0 else len(op.basis.maps) - 1)
                 _ = op.definition
                 op.basis_id = orig
